@@ -18,6 +18,11 @@
 (* The property makes no claim where no index_rel.wtml exists; whatever    *)
 (* index exists after any later call (reuse, override, `toasty view`) must *)
 (* satisfy the sentences for the tiles then on disk.                       *)
+(* The directory may also EXIST BEFORE THE FIRST CALL, empty (the caller   *)
+(* made it: tempfile.mkdtemp()).  Nothing in it was left by an earlier     *)
+(* call, so the first call is the FRESH call of its history: it produces   *)
+(* the pyramid and its index (tile_fits' docstring skips the tiling only   *)
+(* "if there is already a tiled FITS in out_dir").                         *)
 (***************************************************************************)
 EXTENDS Wtml
 
@@ -34,6 +39,11 @@ CONSTANTS Inputs,          \* names of (FITS collection, tiling method) configur
                            \*   "none"  - every reuse reads index_rel.wtml (fits_tiler.py as repaired)
                            \*   "sound" - reuse remembers what it read; override forgets it
                            \*   "stale" - ... but override fails to forget it (e.g. keyed by another spelling of the path)
+          StartEmpty,      \* TRUE: the output directory exists, empty, before the first call
+          EmptyDir,        \* a directory that exists and holds nothing is
+                           \*   "tiled"  - tiled into, like an absent one (intended)
+                           \*   "served" - "reused": nothing is tiled, no index, a default description (fits_tiler.py as found:
+                           \*              os.path.isdir alone decides)
           Partial          \* treatment of a directory that holds tiles but no index:
                            \*   "asfound"       - it is a directory like any other: reuse serves it as it is (default
                            \*                     description, still no index), override removes it (fits_tiler.py)
@@ -60,7 +70,7 @@ VARIABLES present,   \* the output directory exists
           cache      \* what the calling process remembers about this directory (NoDesc: nothing)
 vars == <<present, wtml, files, ret, hist, cache>>
 
-Init == /\ present = FALSE /\ wtml = NoDesc /\ files = {} /\ ret = NoDesc /\ hist = <<>> /\ cache = NoDesc
+Init == /\ present = StartEmpty /\ wtml = NoDesc /\ files = {} /\ ret = NoDesc /\ hist = <<>> /\ cache = NoDesc
 
 Indexed  == wtml # NoDesc
 NFails   == Cardinality({k \in DOMAIN hist : hist[k].via = "interrupted"})
@@ -68,9 +78,15 @@ NFails   == Cardinality({k \in DOMAIN hist : hist[k].via = "interrupted"})
 (* what a reuse hands back when it does restore the description *)
 Recovered == IF Cache # "none" /\ cache # NoDesc THEN cache ELSE wtml
 
+(* nothing in the directory was left by an earlier call *)
+Vacant   == files = {} /\ ~Indexed
 (* which branch of FitsTiler.tile the call takes *)
-Seen     == IF Partial = "index-guards" THEN Indexed ELSE present
-Kind(ov) == IF ~Seen THEN "fresh" ELSE IF ov THEN "override" ELSE "reuse"
+Seen     == CASE Partial = "index-guards" -> Indexed
+              [] EmptyDir = "served"      -> present
+              [] OTHER                    -> present /\ ~Vacant
+Branch(ov) == IF ~Seen THEN "fresh" ELSE IF ov THEN "override" ELSE "reuse"
+(* what the call is in the property's terms: the call that finds nothing left by an earlier one is the fresh call *)
+Kind(ov) == IF ~present \/ Vacant THEN "fresh" ELSE Branch(ov)
 
 Record(i, ov, kind, via, w, r, f) ==
     [input |-> i, override |-> ov, kind |-> kind, via |-> via, indexed |-> w # NoDesc, disk |-> w.id,
@@ -79,25 +95,26 @@ Record(i, ov, kind, via, w, r, f) ==
 (* a call that runs to completion: through tile_fits (via = "api") or `toasty view` (via = "view", never override) *)
 Complete(i, ov, via) ==
     LET kind == Kind(ov)
-        r    == CASE kind # "reuse" -> Desc(i)
-                  [] kind = "reuse" /\ Indexed  -> (IF ReuseRestores THEN Recovered ELSE DefaultDesc)
-                  [] kind = "reuse" /\ ~Indexed -> DefaultDesc
-        w    == CASE kind # "reuse" -> Desc(i)
-                  [] kind = "reuse" /\ ~Indexed /\ via = "view" /\ Partial = "view-indexes" -> r
+        br   == Branch(ov)
+        r    == CASE br # "reuse" -> Desc(i)
+                  [] br = "reuse" /\ Indexed  -> (IF ReuseRestores THEN Recovered ELSE DefaultDesc)
+                  [] br = "reuse" /\ ~Indexed -> DefaultDesc
+        w    == CASE br # "reuse" -> Desc(i)
+                  [] br = "reuse" /\ ~Indexed /\ via = "view" /\ Partial = "view-indexes" -> r
                   [] OTHER -> wtml
-        f    == CASE kind = "fresh"    -> files \cup FilesOf(i)      \* (files = {} unless a partial directory is not seen)
-                  [] kind = "override" -> (IF OverrideClears THEN {} ELSE files) \cup FilesOf(i)
-                  [] kind = "reuse"    -> files
+        f    == CASE br = "fresh"    -> files \cup FilesOf(i)      \* (files = {} unless a partial directory is not seen)
+                  [] br = "override" -> (IF OverrideClears THEN {} ELSE files) \cup FilesOf(i)
+                  [] br = "reuse"    -> files
     IN
     /\ Len(hist) < MaxLen
-    /\ (kind = "reuse" /\ Indexed) => wtml.id = i      \* the property speaks of a repeated IDENTICAL call
+    /\ (br = "reuse" /\ Indexed) => wtml.id = i        \* the property speaks of a repeated IDENTICAL call
     /\ via = "view" => (present /\ ~ov)
     /\ present' = TRUE
     /\ wtml'  = w
     /\ files' = f
     /\ ret'   = r
-    /\ cache' = CASE kind = "reuse" /\ Indexed -> (IF Cache = "none" \/ ~ReuseRestores THEN NoDesc ELSE Recovered)
-                  [] kind = "override" -> (IF Cache = "stale" THEN cache ELSE NoDesc)
+    /\ cache' = CASE br = "reuse" /\ Indexed -> (IF Cache = "none" \/ ~ReuseRestores THEN NoDesc ELSE Recovered)
+                  [] br = "override" -> (IF Cache = "stale" THEN cache ELSE NoDesc)
                   [] OTHER -> cache
     /\ hist'  = Append(hist, Record(i, ov, kind, via, w, r, f))
 
@@ -106,7 +123,7 @@ View(i)     == Views /\ Complete(i, FALSE, "view")
 
 (* a call that is interrupted after writing tiles and before writing the index *)
 Fail(i, ov, mode) ==
-    LET kind == Kind(ov)
+    LET kind == Branch(ov)
         f    == (IF kind = "override" /\ OverrideClears THEN {} ELSE files) \cup PartialOf(i, mode)
     IN
     /\ Len(hist) < MaxLen
@@ -130,7 +147,8 @@ PopOnDisk == {Unpath(Scheme, f) : f \in files}
 
 (* the description returned by every call is the one recorded in the WTML on disk after that call *)
 ReturnedAgrees == (hist # <<>> /\ ret # NoDesc /\ Indexed) => ret = wtml
-(* a call that completes a tiling leaves an index *)
+(* the fresh call of a history and an override produce the pyramid: they leave an index (with which what they hand *)
+(* back agrees: ReturnedAgrees)                                                                                    *)
 CompletedIsIndexed == (hist # <<>> /\ hist[Len(hist)].kind \in {"fresh", "override"}) => Indexed
 (* whatever index exists: expanding the recorded template over the populated positions gives exactly the files on disk *)
 TemplateAddressesFiles == Indexed => files = {Expand(wtml.url, p) : p \in PopOnDisk}
